@@ -26,7 +26,7 @@ ASSUMPTIONS = [
     "statistical clauses need two independent rejections (overall false-alarm bound < 1e-9 per case)",
     "a draw that exceeds the 10 s watchdog is only classified (known finding) when the quantile lies above the object's own total probability mass; otherwise it is inconclusive",
 ]
-FLOORS = {"quick": {"quantile_draws": 4000, "cases_decided": 30, "distinct_nontrivial": 20}, "thorough": {"quantile_draws": 100000, "cases_decided": 150}}
+FLOORS = {"quick": {"quantile_draws": 4000, "cases_decided": 30, "distinct_nontrivial": 20}, "thorough": {"quantile_draws": 100000, "cases_decided": 110}}
 
 GRID = {
     "gauss": [(100, 10), (1000, 50), (5000, 150), (10, 1), (500, 200), (15000, 150), (250, 0.5), (500, 0.25), (1200, 0.1), (40, 0.02)],
